@@ -84,3 +84,149 @@ def measure_blocks_reads(ctx: Ctx, collection: Obj, name: str) -> FrozenSet[str]
             if ctx.repo.lookup(o.cls, attr) is not None:
                 reads |= ctx.flow.member_val(o, attr).reads
     return frozenset(reads)
+
+
+# --------------------------------------------------------------------------- index space of the partition index
+VALID_SPACE_ARRAYS = (
+    "cube.counts", "cube.means", "cube.medians", "cube.stddev", "cube.sums", "cube.overlaps", "cube.valid_overlaps", "cube.unweighted_counts",
+    "cube.weighted_counts", "cube.weighted_squared_counts", "cube.unweighted_valid_counts", "cube.weighted_valid_counts", "cube.covariance",
+    "self._cube.counts", "self._cube.unweighted_counts", "self._cube.weighted_squared_counts", "counts",
+)
+
+
+def slice_index_space(ctx: Ctx, rule: str):
+    """`slice_idx` (the partition index) counts the VALID elements of the table dimension.  Every subscript by it must
+    therefore index a collection in that space: `valid_elements`, an array already restricted to valid elements (the
+    Cube accessors, which all pass the valid-element grid - C01), or an array explicitly restricted by
+    `valid_elements.element_idxs`.  `all_elements[k]`, or an array that still carries missing elements, names /
+    selects another table as soon as a missing element precedes a valid one."""
+    import ast as _ast
+
+    from ..stmts import resolver
+    from ..symex import u as _u
+
+    n = 0
+    for m in ctx.repo.all_members():
+        if m.name == "_slice_idx_expr":
+            continue
+        res = None
+        for node in _ast.walk(m.node):
+            if not isinstance(node, _ast.Subscript) or not isinstance(node.ctx, _ast.Load):
+                continue
+            idx = _u(node.slice)
+            if idx not in ("slice_idx", "self._slice_idx", "cls._slice_idx_expr(cube, slice_idx)", "self._slice_idx_expr(cube, slice_idx)"):
+                continue
+            res = res or resolver(m.node, multi=True)
+            bases = [_u(b) for b in res(node.value)]
+            where = f"{m.cls.module.path.split('cr/cube/')[-1]}::{m.cls.name}.{m.name} [{_u(node)[:60]}]"
+            n += 1
+            if any("all_elements" in b for b in bases):
+                ctx.violated(rule, where, bases[:2], "valid_elements[slice_idx]", "slice_idx counts valid elements only: with a missing element ahead of a valid one this is another element")
+            elif all("valid_elements" in b for b in bases):
+                ctx.held(rule, where, bases[0][:80], "a collection indexed by valid-element position")
+            elif any("counts_with_missings" in b or "raw_cube_array" in b for b in bases):
+                restricted = [b for b in bases if "valid_elements.element_idxs" in b]
+                if restricted:
+                    ctx.held(rule, where, restricted[0][:110], "restricted to the valid table elements before the partition index is applied")
+                else:
+                    ctx.violated(rule, where, bases[:2], "an array restricted to the valid elements of the table dimension",
+                                 "the array still carries the missing elements of the table dimension; slice_idx counts valid elements only, so table k is another table when a missing element precedes")
+            elif all(b in VALID_SPACE_ARRAYS for b in bases):
+                ctx.held(rule, where, bases[0], "a Cube accessor (valid elements only) / the counts handed to the factory")
+            else:
+                ctx.undecided(rule, where, f"indexed collection {bases[:2]}", "a collection in valid-element space")
+    ctx.count("subscripts by the partition index", n)
+    ctx.require_min("subscripts by the partition index", 10)
+
+
+def index_space_lints(ctx: Ctx, rule: str, shorts=None, kinds=("filtered-enumeration", "pairwise-fancy-index"), words=None):
+    """Positions counted in a FILTERED list used as positions in the original; two index arrays in one subscript."""
+    from .. import indexspace as IS
+    from ..loader import AnalysisError
+
+    if IS.self_check() != (1, 1):
+        raise AnalysisError("index-space lints: the positive control is no longer recognised")
+    n, hits = IS.scan(ctx.repo, shorts)
+    ctx.count("functions scanned by the index-space lints", n)
+    found = False
+    for where, kind, detail in hits:
+        if kind not in kinds:
+            continue
+        # only the classes that compute THIS property's quantities
+        if words is not None and not any(w in where.lower() for w in words):
+            continue
+        found = True
+        if kind == "filtered-enumeration":
+            ctx.violated(rule + ".filtered-position", where, detail, "positions counted in the sequence the array is aligned with",
+                         "the i-th element of a filtered list is not the i-th element of the original: the value lands on another subtotal / element whenever an excluded one precedes")
+        else:
+            ctx.violated(rule + ".pairwise-index", where, detail, "np.ix_(rows, cols) or two successive subscripts",
+                         "two index arrays in one subscript are paired element by element: the diagonal of the block (or IndexError), not the block")
+    if not found:
+        ctx.held(rule, f"{'package' if not shorts else ', '.join(shorts)}: every function", f"{n} functions: no position of a filtered list used on the original, no pairwise fancy index", "", "positive control: 2 of 2 recognised")
+
+
+ORDER_CODE = ["collator.py", "matrix/assembler.py", "stripe/assembler.py", "cubepart.py", "dimension.py"]
+
+
+def order_index_sign_tests(ctx: Ctx, rule: str):
+    """Items of a signed order: `>= 0` base element, `< 0` insertion - index 0 is the first base element."""
+    from .. import truthiness as T
+    from ..loader import AnalysisError
+
+    if T.sign_self_check() != 1:
+        raise AnalysisError("order-index sign lint: the positive control is no longer recognised")
+    n, hits = T.scan_sign_tests(ctx.repo, ORDER_CODE)
+    ctx.count("functions scanned for order-index sign tests", n)
+    for where, test, it in hits:
+        ctx.violated(rule, where, f"{test} on an item of {it}", "idx >= 0 (base element) / idx < 0 (insertion)", "index 0 is the first base element: a strict comparison drops it together with the insertions (or keeps it among them)")
+    if not hits:
+        ctx.held(rule, "ordering code: every sign test on an order item", f"{n} functions, no strict comparison of an order item with 0", "", "positive control recognised")
+
+
+MEASURE_CODE = ["matrix/measure.py", "stripe/measure.py", "matrix/cubemeasure.py", "stripe/cubemeasure.py", "matrix/subtotals.py", "stripe/insertion.py",
+                "smoothing.py", "cubepart.py", "measures/pairwise_significance.py", "min_base_size_mask.py", "scalar.py"]
+
+
+SCOPE_WORDS = {
+    "C03": ("proportion", "percentage"),
+    "C11": ("variance", "standarderror", "stderr", "std_err", "std_dev", "stddev", "moe"),
+    "C12": ("zscore", "pval", "residual"),
+    "C13": ("pairwise",),
+    "C14": ("scale", "scaled"),
+    "C15": ("share",),
+    "C16": ("columnindex", "column_index", "unconditional"),
+    "C17": ("population",),
+    "C20": ("smooth",),
+}
+
+
+def no_shared_writes(ctx: Ctx, rule: str, shorts=None):
+    """A measure never writes into an array it did not create: its operands are the cached values of OTHER measures
+    (lazyproperty values, blocks handed over by reference), so an in-place write changes what those report afterwards -
+    the value of this property's measure, or of the one it borrowed from, then depends on which was read first.
+    (EFFECTS inventory restricted to the measure layers; the package-wide inventory with the accepted sites is C18.)"""
+    from ..effects import inventory
+
+    shorts = shorts or MEASURE_CODE
+    words = SCOPE_WORDS.get(ctx.prop)
+    n, bad = 0, []
+    for w in inventory(ctx.repo):
+        short = w.member.cls.module.path.split("cr/cube/")[-1]
+        if short not in shorts:
+            continue
+        # only the classes / members that compute THIS property's measures
+        if words is not None:
+            tag = (w.member.cls.name + "." + w.member.name + " " + short).lower()
+            if not any(x in tag for x in words):
+                continue
+        n += 1
+        if w.cls in ("Fresh", "Self"):
+            continue
+        bad.append(w)
+    ctx.count("write sites in this property's measure code", n)
+    for w in bad:
+        ctx.violated(rule, w.key, f"write to a {w.cls} object (root `{w.root}`)", "writes only to arrays created in the writing function",
+                     "the operand is a cached value of another measure: after this read that measure reports the modified values")
+    if not bad:
+        ctx.held(rule, "this property's measure classes: every write site", f"{n} write sites, all to objects created by the writing function", "")
